@@ -1,5 +1,6 @@
 import HH.Intrin.X86
 import HH.Intrin.Wasm
+import HH.Intrin.Neon
 import HH.Hex
 /-! # Evaluation of single modelled x86 intrinsics for the conformance stream (`intrin …` ops) -/
 namespace HH
@@ -68,6 +69,44 @@ def evalWasm (name : String) (imm : Nat) (a : List (BitVec 128)) : Option (BitVe
   | _ => none
 
 def u128Hex (x : BitVec 128) : String := u64Hex ((x >>> 64).setWidth 64) ++ u64Hex (x.setWidth 64)
+
+/-- single modelled NEON intrinsics (`intrin n… <imm> <operands>` on the aarch64 Miri runner); 64-bit d registers are the
+low halves of the operands / zero-extended in the result -/
+def evalNeon (name : String) (imm : Nat) (a : List (BitVec 128)) : Option (BitVec 128) :=
+  let g (i : Nat) : BitVec 128 := a.getD i 0
+  let d (i : Nat) : BitVec 64 := (g i).setWidth 64
+  match name with
+  | "nadd" => some (Neon.vaddq_u64 (g 0) (g 1))
+  | "nsub" => some (Neon.vsubq_u64 (g 0) (g 1))
+  | "nand" => some (Neon.vandq_u64 (g 0) (g 1))
+  | "norr" => some (Neon.vorrq_u64 (g 0) (g 1))
+  | "neor" => some (Neon.veorq_u64 (g 0) (g 1))
+  | "nbic" => some (Neon.vbicq_u64 (g 0) (g 1))
+  | "nmovn" => some ((Neon.vmovn_u64 (g 0)).setWidth 128)
+  | "nshrn" => some ((Neon.vshrn_n_u64 (g 0) imm).setWidth 128)
+  | "nmull" => some (Neon.vmull_u32 (d 0) (d 1))
+  | "nshrq" => some (Neon.vshrq_n_u64 (g 0) imm)
+  | "nrev" => some (Neon.vrev64q_u32 (g 0))
+  | "nsetl" => if imm < 4 then some (Neon.vsetq_lane_u32 ((g 0).setWidth 32) (g 1) imm) else none
+  | "ntbl" => some (Neon.vqtbl1q_u8 (g 0) (g 1))
+  | "next" => if imm < 16 then some (Neon.vextq_u8 (g 0) (g 1) imm) else none
+  | "nshl" => some (Neon.vshlq_u32 (g 0) (g 1))
+  | "ndup64" => some (Neon.vdupq_n_u64 (d 0))
+  | "ndup32" => some (Neon.vdupq_n_u32 ((g 0).setWidth 32))
+  | "ndup8" => some (Neon.vdupq_n_u8 ((g 0).setWidth 8))
+  | "nld64" => some (Neon.vld1q_u64 (d 0) (d 1))
+  | "nld8" => some (Neon.vld1q_u8 (bytes16 (g 0)) 0)
+  | _ => none
+
+def intrinLineNeon (toks : List String) : Option String :=
+  match toks with
+  | "intrin" :: name :: imm :: ops => do
+    let i ← imm.toNat?
+    let vs ← ops.mapM fun s => (parseHexNat? s).map (BitVec.ofNat 128)
+    match evalNeon name i vs with
+    | some v => some (u128Hex v)
+    | none => some "bad-op"
+  | _ => none
 
 def intrinLineWasm (toks : List String) : Option String :=
   match toks with
